@@ -154,29 +154,68 @@ Definition agent_remove (w : world) (k : Z) : world := fst (deregister_obj w k).
      class 5  E(A): def remove(self): D(self.model, 50); super().remove()          (super called late)
      class 6  F(D): def remove(self): super().remove(); D(self.model, 60)          (work after super)
      class 7  G(A): def remove(self): pass                                          (forgets super().remove()) *)
-Record override := { ov_pre : list (Z * Z); ov_super : bool; ov_post : list (Z * Z) }.
+Record override := { ov_pre : list (Z * Z); ov_super : bool; ov_post : list (Z * Z); ov_partner : bool }.
+(*   class 8  H(A): def remove(self):                                               (removes ANOTHER agent)
+                       super().remove()
+                       p = <the agent whose creation index is self.val>
+                       if p is not None and p is not self and p.model is self.model and p in self.model.agents:
+                           p.remove()          # dynamic dispatch again: p may be an H, E, F, G, ... itself *)
 Definition ov_of (c : Z) : option override :=
-  if c =? 5 then Some {| ov_pre := [(3, 50)]; ov_super := true; ov_post := [] |}
-  else if c =? 6 then Some {| ov_pre := []; ov_super := true; ov_post := [(3, 60)] |}
-  else if c =? 7 then Some {| ov_pre := []; ov_super := false; ov_post := [] |}
+  if c =? 5 then Some {| ov_pre := [(3, 50)]; ov_super := true; ov_post := []; ov_partner := false |}
+  else if c =? 6 then Some {| ov_pre := []; ov_super := true; ov_post := [(3, 60)]; ov_partner := false |}
+  else if c =? 7 then Some {| ov_pre := []; ov_super := false; ov_post := []; ov_partner := false |}
+  else if c =? 8 then Some {| ov_pre := []; ov_super := true; ov_post := []; ov_partner := true |}
   else None.
 
 Definition creates (w : world) (m : Z) (l : list (Z * Z)) : world :=
   fold_left (fun w cv => fst (agent_init w m (fst cv) (PInt (snd cv)))) l w.
 
-(* agent.remove() as Python dispatches it: the override of the agent's class if there is one *)
-Definition obj_remove (w : world) (k : Z) : world :=
+(* the straight-line part of an overriding remove(): work, super().remove() or not, more work *)
+Definition ov_body (w : world) (k : Z) (a : arec) (o : override) : world :=
+  let w1 := creates w (a_model a) (ov_pre o) in
+  let w2 := if ov_super o then agent_remove w1 k else w1 in
+  creates w2 (a_model a) (ov_post o).
+
+(* the other agent an H removes, if its guard lets it *)
+Definition partner_target (w : world) (k : Z) (a : arec) : option Z :=
+  match a_pay a with
+  | PSeq _ => None
+  | PInt p =>
+      if p =? k then None else
+      match find_agent (w_born w) p with
+      | None => None
+      | Some b =>
+          if a_model b =? a_model a then
+            match getm (w_models w) (a_model a) with
+            | Some ms => if zmem p (m_all ms) then Some p else None
+            | None => None
+            end
+          else None
+      end
+  end.
+
+(* agent.remove() as Python dispatches it: the override of the agent's class if there is one.  fuel bounds the
+   chain of agents removing each other (each link was in model.agents and has just been taken out of it) *)
+Fixpoint obj_remove_f (fuel : nat) (w : world) (k : Z) : world :=
   match find_agent (w_born w) k with
   | None => w
   | Some a =>
       match ov_of (a_cls a) with
       | None => agent_remove w k
       | Some o =>
-          let w1 := creates w (a_model a) (ov_pre o) in
-          let w2 := if ov_super o then agent_remove w1 k else w1 in
-          creates w2 (a_model a) (ov_post o)
+          let w3 := ov_body w k a o in
+          if ov_partner o then
+            match fuel with
+            | O => w3
+            | S f => match partner_target w3 k a with
+                     | Some p => obj_remove_f f w3 p
+                     | None => w3
+                     end
+            end
+          else w3
       end
   end.
+Definition obj_remove (w : world) (k : Z) : world := obj_remove_f (S (length (w_born w))) w k.
 
 (* Agent.create_agents *)
 Inductive form :=
